@@ -29,6 +29,8 @@ enum Op {
     Finish,
     FinishClear,
     Abandon,
+    /// finish_using_style(): the behaviour configured with with_finish() at construction
+    FinishStyle,
     UpdateSetPos(u64),
     UpdateSetLen(u64),
     Tick,
@@ -48,6 +50,7 @@ fn op_class(op: &Op) -> &'static str {
         Op::Finish => "finish",
         Op::FinishClear => "finish_and_clear",
         Op::Abandon => "abandon",
+        Op::FinishStyle => "finish_using_style",
         Op::UpdateSetPos(_) => "update_set_pos",
         Op::UpdateSetLen(_) => "update_set_len",
         Op::Tick => "tick",
@@ -70,8 +73,17 @@ fn sequential_case(seed: u64, idx: u64) -> CaseOut {
         _ => Some(rng.range(1, 1000)),
     };
     let target = if visible { ProgressDrawTarget::term_like(spy.boxed()) } else { ProgressDrawTarget::hidden() };
+    let on_finish = rng.below(5);
+    let completing = on_finish < 3;
     let pb = ProgressBar::with_draw_target(init_len, target)
-        .with_style(ProgressStyle::with_template("{pos}/{len} {percent}% {bar:10} {eta} {per_sec} {bytes}/{total_bytes} {human_pos}").unwrap());
+        .with_style(ProgressStyle::with_template("{pos}/{len} {percent}% {bar:10} {eta} {per_sec} {bytes}/{total_bytes} {human_pos}").unwrap())
+        .with_finish(match on_finish {
+            0 => indicatif::ProgressFinish::AndLeave,
+            1 => indicatif::ProgressFinish::WithMessage("done".into()),
+            2 => indicatif::ProgressFinish::AndClear,
+            3 => indicatif::ProgressFinish::Abandon,
+            _ => indicatif::ProgressFinish::AbandonWithMessage("left".into()),
+        });
     let mut pos: u64 = 0;
     let mut len: Option<u64> = init_len;
     let mut finished = false;
@@ -88,7 +100,7 @@ fn sequential_case(seed: u64, idx: u64) -> CaseOut {
             7 => Op::DecLen(rng.u64_biased()),
             8 => Op::UnsetLen,
             9 => Op::Reset,
-            10 => rng.pick(&[Op::Finish, Op::FinishClear, Op::Abandon]).clone(),
+            10 => rng.pick(&[Op::Finish, Op::FinishClear, Op::Abandon, Op::FinishStyle, Op::FinishStyle]).clone(),
             11 => Op::UpdateSetPos(rng.u64_biased()),
             12 => Op::UpdateSetLen(rng.u64_biased()),
             13 => Op::Tick,
@@ -115,6 +127,14 @@ fn sequential_case(seed: u64, idx: u64) -> CaseOut {
                 finished = true;
             }
             Op::Abandon => finished = true,
+            Op::FinishStyle => {
+                if completing {
+                    if let Some(l) = len {
+                        pos = l;
+                    }
+                }
+                finished = true;
+            }
             Op::Tick => {}
             Op::Advance(ns) => {
                 clock.fetch_add(*ns, Ordering::SeqCst);
@@ -142,6 +162,7 @@ fn sequential_case(seed: u64, idx: u64) -> CaseOut {
                 Op::Finish => pb.finish(),
                 Op::FinishClear => pb.finish_and_clear(),
                 Op::Abandon => pb.abandon(),
+                Op::FinishStyle => pb.finish_using_style(),
                 Op::UpdateSetPos(p) => pb.update(|s| s.set_pos(*p)),
                 Op::UpdateSetLen(l) => pb.update(|s| s.set_len(*l)),
                 Op::Tick => pb.tick(),
@@ -152,7 +173,7 @@ fn sequential_case(seed: u64, idx: u64) -> CaseOut {
             let _ = (pb.eta(), pb.per_sec(), pb.duration(), pb.elapsed());
             (pb.position(), pb.length(), pb.is_finished())
         }));
-        let w = || J::obj().with("initial_length", init_len).with("visible", visible).with("ops", J::Arr(ops.iter().map(|o| J::from(format!("{o:?}"))).collect()));
+        let w = || J::obj().with("initial_length", init_len).with("with_finish", ["AndLeave", "WithMessage", "AndClear", "Abandon", "AbandonWithMessage"][on_finish as usize]).with("visible", visible).with("ops", J::Arr(ops.iter().map(|o| J::from(format!("{o:?}"))).collect()));
         let feats = vec![op_class(&op).to_string()];
         match r {
             Err(p) => {
@@ -438,7 +459,7 @@ pub fn run(cfg: &RunCfg) -> PropResult {
     };
     PropResult {
         report,
-        rule: "sequential evaluations: 3-40 operations (inc/dec/set_position/set_length/inc_length/dec_length/unset_length/reset/finish*/abandon/update(set_pos|set_len)/tick, virtual time passing) with boundary-biased u64 arguments on hidden and visible bars, issued through the handle itself, clones and handles upgraded from WeakProgressBar, getters and fraction compared with a wrapping/saturating model after every step; concurrent evaluations: 2-16 OS threads x 1-3 clones x 100-100000 inc/dec calls on one bar (hidden, unlimited and 20 Hz spy targets, optional 1 ms steady ticker), conservation of the wrapping sum after join and monotone reads in inc-only runs; 2-8 threads x 100-20000 inc_length/dec_length calls (optionally one unset_length), final length = initial + sum of deltas (or unknown), monotone length reads in inc-only runs; distinct = operation list hash / run parameters".into(),
+        rule: "sequential evaluations: 3-40 operations (inc/dec/set_position/set_length/inc_length/dec_length/unset_length/reset/finish*/abandon/finish_using_style (every ProgressFinish, repeatedly)/update(set_pos|set_len)/tick, virtual time passing) with boundary-biased u64 arguments on hidden and visible bars, issued through the handle itself, clones and handles upgraded from WeakProgressBar, getters and fraction compared with a wrapping/saturating model after every step; concurrent evaluations: 2-16 OS threads x 1-3 clones x 100-100000 inc/dec calls on one bar (hidden, unlimited and 20 Hz spy targets, optional 1 ms steady ticker), conservation of the wrapping sum after join and monotone reads in inc-only runs; 2-8 threads x 100-20000 inc_length/dec_length calls (optionally one unset_length), final length = initial + sum of deltas (or unknown), monotone length reads in inc-only runs; distinct = operation list hash / run parameters".into(),
         exhaustive: false,
     }
 }
